@@ -267,6 +267,11 @@ func (x *Exec) safe(st *State, kind string, pos token.Pos, descr string, goal *T
 func (p *Program) verify(fn *ssa.Function, fc *FuncContract) (x *Exec) {
 	_, key := funcKey(fn)
 	x = &Exec{p: p, fn: fn, fc: fc, key: key, names: map[string]int{}, params: map[string]Value{}, maxPath: 400}
+	if fc != nil && fc.Mode == "bv" {
+		x.bv = true
+		bvMode = true
+		defer func() { bvMode = false }()
+	}
 	defer func() {
 		if r := recover(); r != nil {
 			if ue, ok := r.(error); ok {
@@ -290,15 +295,22 @@ func (p *Program) verify(fn *ssa.Function, fc *FuncContract) (x *Exec) {
 	st.assume(Select(st.heap.alloc, Int(0)))
 	fr := &Frame{fn: fn, env: map[ssa.Value]Value{}, names: map[string]Value{}, loops: map[int]*loopSnap{}, info: p.info(fn)}
 	st.top = fr
-	for _, prm := range fn.Params {
-		v := st.freshValue(prm.Name(), prm.Type())
+	for i, prm := range fn.Params {
+		name := prm.Name()
+		if fc != nil && i < len(fc.Params) {
+			name = fc.Params[i] // positional names from the contract (build-tag variants name parameters differently)
+		}
+		if name == "_" || name == "" {
+			name = fmt.Sprintf("arg%d", i)
+		}
+		v := st.freshValue(name, prm.Type())
 		if pv, ok := v.(Ptr); ok {
-			pv.R = Sym(prm.Name(), SInt)
+			pv.R = Sym(name, SInt)
 			v = pv
 		}
 		fr.env[prm] = v
-		x.params[prm.Name()] = v
-		fr.names[prm.Name()] = v
+		x.params[name] = v
+		fr.names[name] = v
 	}
 	for i, fv := range fn.FreeVars {
 		v := st.freshValue(fmt.Sprintf("fv%d.%s", i, fv.Name()), fv.Type())
@@ -637,6 +649,8 @@ func (x *Exec) zeroRegion(st *State, root types.Type, r *Term) {
 			z = tFalse
 		case l.sort == SInt:
 			z = Int(0)
+		case strings.HasPrefix(l.sort, "(_ BitVec"):
+			z = bvConst(big.NewInt(0), bvWidth(l.sort))
 		default:
 			zz := Int(0)
 			z = App("(as const "+l.sort+")", l.sort, zz)
@@ -709,6 +723,9 @@ func isInteger(t types.Type) bool {
 // wrap applies Go's fixed-width wrap-around (narrow and unsigned types only;
 // int/int64 are treated as mathematical integers - listed assumption).
 func (x *Exec) wrap(t *Term, typ types.Type) *Term {
+	if t.IsBV() {
+		return t
+	}
 	b, ok := typ.Underlying().(*types.Basic)
 	if !ok || b.Info()&types.IsInteger == 0 {
 		return t
